@@ -28,7 +28,7 @@ tvars == <<vars, l, outObs, resObs, curCall, callActive, plan, inq>>
 Ln == Trace[l]
 IsEv(e) == l <= Len(Trace) /\ Ln.ev = e /\ l' = l + 1
 Same == UNCHANGED <<outObs, resObs, curCall, callActive, plan, inq>>
-NoPlan == [kind |-> NIL, at |-> 0]
+NoPlan == [kind |-> NIL, at |-> 0, on |-> "data"]
 
 TrInit == Init /\ l = 1 /\ outObs = 0 /\ resObs = 0 /\ curCall = NoCall /\ callActive = FALSE /\ plan = NoPlan /\ inq = <<>> /\ HWInit
 
@@ -43,7 +43,7 @@ TrReset ==
     /\ err' = NIL
     /\ writer' = [pc |-> "select", buf |-> <<>>, inNil |-> FALSE, reqNil |-> FALSE, begin |-> NIL]
     /\ toAgent' = [q |-> <<>>, closed |-> FALSE, stray |-> 0]
-    /\ agent' = [seen |-> 0, restored |-> NIL, faulted |-> FALSE, fkind |-> NIL, alive |-> TRUE]
+    /\ agent' = [seen |-> 0, reqs |-> 0, restored |-> NIL, faulted |-> FALSE, fkind |-> NIL, alive |-> TRUE]
     /\ fromAgent' = [q |-> <<>>, closed |-> FALSE]
     /\ reader' = [pc |-> "read", msg |-> NIL, hasBegin |-> FALSE, begin |-> NIL, inBatch |-> FALSE, points |-> <<>>, pend |-> NIL]
     /\ kaBuf' = 0 /\ respC' = [k \in ReqKinds |-> <<>>]
@@ -131,7 +131,7 @@ TrPeerDies == IsEv("PeerDies") /\ AgentDies /\ Same
 TrBystander == IsEv("Bystander") /\ Ln.ok /\ UNCHANGED vars /\ Same
 TrFault ==
     /\ IsEv("Fault")
-    /\ plan' = [kind |-> ModelKind(Ln.kind), at |-> Ln.at]
+    /\ plan' = [kind |-> ModelKind(Ln.kind), at |-> Ln.at, on |-> Get(Ln, "on", "data")]   \* on: at-th data message / at-th request
     /\ UNCHANGED vars /\ UNCHANGED <<outObs, resObs, curCall, callActive, inq>>
 TrCall ==
     /\ IsEv("Call") /\ ~callActive
@@ -154,13 +154,20 @@ TrRet ==
     /\ LET r == results[resObs + 1] IN
        /\ r.kind = Ln.kind
        /\ (Ln.err = "") <=> (r.err = NIL)
+       \* a response the (misbehaving) peer sent for no request of that kind and that was parked in the buffer of its
+       \* kind: the next call of that kind is handed it.  Marked by the driver where it can tell (made-up content)
+       \* (a made-up snapshot; a parked init/restore/info response looks like any other)
+       /\ (r.err = NIL /\ r.kind = "snapshot" /\ "stale" \in DOMAIN r.val.val) => Get(Ln, "stale", FALSE)
        \* SnapshotRoundTrip / ResponsesMatchRequests, observed: the bytes are the peer's state at the request
-       /\ (r.err = NIL /\ r.kind = "snapshot") =>
-              /\ r.val.rid = r.rid
+       /\ (r.err = NIL /\ r.kind = "snapshot" /\ "stale" \notin DOMAIN r.val.val) =>
+              \* ResponsesMatchRequests - unless the peer was told to misbehave: after a parked response every later
+              \* call of that kind is handed the answer to the call before it (the content is still the model's)
+              /\ plan.at = 0 => r.val.rid = r.rid
+              /\ ~Get(Ln, "stale", FALSE)
               /\ Ln.seen = r.val.val.seen
               /\ Ln.restored = r.val.val.restored
               /\ Ln.padok
-       /\ (r.err = NIL /\ r.kind # "snapshot") => r.val.rid = r.rid
+       /\ (r.err = NIL /\ r.kind # "snapshot" /\ plan.at = 0) => r.val.rid = r.rid
     /\ resObs' = resObs + 1 /\ callActive' = FALSE
     /\ UNCHANGED vars /\ UNCHANGED <<outObs, curCall, plan, inq>>
 \* EchoIdentity, observed
@@ -215,8 +222,11 @@ CallNotOpen(c) ==
 
 \* the peer commits exactly the planned fault, exactly at the planned message
 PeerAsPlanned ==
-    /\ (agent'.faulted /\ ~agent.faulted) => (plan.at = agent'.seen /\ plan.kind = agent'.fkind /\ agent'.fkind # "die")
-    /\ (agent'.seen = plan.at /\ agent.seen < plan.at) => agent'.faulted
+    /\ (agent'.faulted /\ ~agent.faulted) =>
+            /\ plan.kind = agent'.fkind /\ agent'.fkind # "die"
+            /\ plan.at = (IF plan.on = "req" THEN agent'.reqs ELSE agent'.seen)
+    /\ (plan.on = "data" /\ agent'.seen = plan.at /\ agent.seen < plan.at) => agent'.faulted
+    /\ (plan.on = "req" /\ agent'.reqs = plan.at /\ agent.reqs < plan.at) => agent'.faulted
 TrSilent ==
     /\ ~crashed
     /\ \/ Internal(curCall, callActive) /\ PeerAsPlanned /\ UNCHANGED inq
